@@ -107,7 +107,7 @@ def plan(seed, tier):
         parts = max(1, total // 1024)
         for part in range(parts):
             cases.append({"class": "exh", "P": p, "Q": q, "part": part, "parts": parts, "cost": total / parts / 200})
-    n = 16 if tier == "quick" else 200
+    n = 16 if tier == "quick" else 1000
     cases += [{"class": "perms", "index": i, "reps": 6, "cost": 3} for i in range(n)]
     cases += [{"class": "random", "index": i, "reps": 10, "cost": 3} for i in range(n)]
     cases += [{"class": "seqs", "index": i, "reps": 10, "cost": 3} for i in range(n)]
